@@ -140,8 +140,14 @@ def run_bounded(rep, quick):
         '(quick: all 18 types for <=1 gate, reduced alphabet AND/XOR3/NOR/GT/LNOT/RIFF/NOT/IFF/TRUE for 2 gates; thorough: all types, arity 2..3, '
         'plus 2 inputs x 3 gates over a reduced alphabet) with 5 output lists each (last, all, dead last gate, repeated, input as output), '
         '(b) seeded random circuits (<=4 inputs, <=8 gates quick / <=10 thorough, n-ary arity 2..4, L*/R* chains, constants with and without '
-        'operands, dead logic, unused inputs, no/repeated/input outputs, permuted storage, blocks); clauses: new object, inputs, outputs, '
+        'operands, dead logic, unused inputs, no/repeated/input outputs, permuted storage, blocks; one family in seven is parity-heavy: XOR/NXOR '
+        'of arity 3..4 with partly repeated operands followed by the same type over the de-duplicated operand set), (c) the targeted family '
+        '"repeated operands" for every n-ary type T in AND/OR/XOR/NAND/NOR/NXOR: T(x,x,y), T(x,y), T(x,y,y), T(y,x), T(x,y,x) (and T(x,y,x,y), '
+        'T(x,x,x,y), T(x,x), T(x,x,x)) side by side over 2..3 inputs, and two duplicate gates G1, G2 feeding T(G1,G2,c) next to T(G1,c), T(c,G2), '
+        'T(G2,c,G1), T(G1,G2), with 8-11 output lists each (all, reversed, ternary/binary pairs in both orders, single outputs with the others '
+        'dead, consumers) and reversed storage; clauses: new object, inputs, outputs, '
         'truth table (spec evaluator), argument snapshot unchanged, size, WF; one evaluation = one (circuit, pipeline) pair; '
         'non-trivial = circuit with >=1 non-input gate',
-        'K<=2 exhaustive (reduced alphabet in quick); random K<=8 (quick) / K<=10 (thorough)', exhaustive=False)
+        'K<=2 exhaustive (reduced alphabet in quick); repeated-operand family 504 (quick) / 1296 (thorough) circuits of 5-9 gates; '
+        'random K<=8 (quick) / K<=10 (thorough)', exhaustive=False)
     C.run_chunks(rep, NAME, quick, 'C03', _check)
